@@ -400,7 +400,7 @@ func writeEvidence(id, tier string, seed int, prop *PropSpec, results []*Harness
 		harnessInfo = append(harnessInfo, map[string]interface{}{
 			"harness": r.Spec.Func, "package": r.Spec.Pkg, "bounds": r.Params, "unwind": r.Spec.Unwind,
 			"paths": r.Stats.Paths, "forks": r.Stats.Forks, "instructions": r.Stats.Instrs,
-			"queries": r.SolverQ, "sat": r.SolverSat, "unsat": r.SolverUnsat, "unknown": r.SolverUnknown,
+			"queries": r.SolverQ, "sat": r.SolverSat, "unsat": r.SolverUnsat, "unknown": r.SolverUnknown, "decided_by_second_solver_after_primary_unknown": r.Rescued,
 			"assert_queries": r.Stats.AssertQueries, "assert_queries_cross_checked_z3_5_1": r.CrossChecked, "cross_solver_time_s": r.SolverTime2.Seconds(), "solver_time_s": r.SolverTime.Seconds(), "wall_s": r.Wall.Seconds(),
 			"infeasible_pruned": r.Stats.Infeasible, "note": r.Spec.Note,
 			"unsupported": r.Stats.Unsupported, "unwind_failures": r.Stats.UnwindFail,
